@@ -117,6 +117,9 @@ pub struct Case {
     /// (with `without_grantor_allowance`) the grantor did approve, but the approval has expired
     #[serde(default)]
     pub grantor_allowance_expired: bool,
+    /// every upgradable contract was upgraded by its owner and not yet migrated
+    #[serde(default)]
+    pub windows_open: bool,
 }
 
 struct W<'a> {
@@ -208,6 +211,15 @@ fn build<'a>(case: &Case, named_is_probe: bool) -> W<'a> {
     let dh = approve_data_hash(&[message_sv(&env, &m)]);
     let proof = s.set.proof(&env, &digest(&s.domain, &s.set.hash(), &dh), s.set.full_mask());
     s.gw.approve_messages(&SVec::from_array(&env, [m]), &proof);
+    if case.windows_open {
+        env.mock_all_auths_allowing_non_root_auth();
+        let empty = BytesN::from_array(&env, &empty_wasm_hash());
+        s.gw.upgrade(&empty);
+        s.gas.upgrade(&empty);
+        s.ops.upgrade(&empty);
+        s.its.upgrade(&empty);
+        s.token.upgrade(&empty);
+    }
     let owner_of_called = match case.ep {
         Ep::TokApprove | Ep::TokTransfer | Ep::TokTransferFrom | Ep::TokBurn | Ep::TokBurnFrom | Ep::TokMintFrom => s.pool[TOKEN_OWNER].clone(),
         Ep::GasPay | Ep::GasAdd | Ep::ExampleSend => s.pool[GAS_OWNER].clone(),
@@ -337,7 +349,7 @@ impl Property for C07 {
         "C07"
     }
     fn rule(&self) -> &'static str {
-        "every case = (one of 17 entry points that debit / burn / pay gas from / send as / consume for / deploy under the name of / execute as an operator a named address: token approve, transfer, transfer_from, burn, burn_from, mint_from; gas pay_gas, add_gas; gateway call_contract, validate_message; ITS deploy_interchain_token, deploy_remote_interchain_token, interchain_transfer (burn and lock paths), deploy_remote_canonical_token; operators execute; example send) x (one of 10 authoriser classes: the named address, its counterparty (recipient / allowance grantor / sender), the owner of the called contract, a stranger, nobody, the named address for other arguments, a contract naming itself without entries, a contract naming another address, every address argument aliased to the called contract itself or to the named address with nobody signing) x world state (with / without an allowance held by the counterparty; with / without / with an expired grantor's allowance for delegated spends; named address = an ordinary account or the token's owner/minter; amount 1..40). The full 17x10 matrix is enumerated in every run for both allowance states; proptest samples amounts. Engine: the authorisation trees (incl. nested burn / gas-payment nodes) are recorded in a twin world with all auths mocked and replayed in a fresh identical world signed by exactly one principal. Oracle: success iff the named address authorised (or is the directly calling contract); every refusal leaves the ledger snapshot identical. non-trivial = authoriser is not simply the named address; distinct by Debug hash"
+        "every case = (one of 17 entry points that debit / burn / pay gas from / send as / consume for / deploy under the name of / execute as an operator a named address: token approve, transfer, transfer_from, burn, burn_from, mint_from; gas pay_gas, add_gas; gateway call_contract, validate_message; ITS deploy_interchain_token, deploy_remote_interchain_token, interchain_transfer (burn and lock paths), deploy_remote_canonical_token; operators execute; example send) x (one of 10 authoriser classes: the named address, its counterparty (recipient / allowance grantor / sender), the owner of the called contract, a stranger, nobody, the named address for other arguments, a contract naming itself without entries, a contract naming another address, every address argument aliased to the called contract itself or to the named address with nobody signing) x world state (with / without an allowance held by the counterparty; with / without / with an expired grantor's allowance for delegated spends; named address = an ordinary account or the token's owner/minter; amount 1..40; ordinary state or every contract upgraded-but-not-migrated). The full 17x10 matrix is enumerated in every run for both allowance states; proptest samples amounts. Engine: the authorisation trees (incl. nested burn / gas-payment nodes) are recorded in a twin world with all auths mocked and replayed in a fresh identical world signed by exactly one principal. Oracle: success iff the named address authorised (or is the directly calling contract); every refusal leaves the ledger snapshot identical. non-trivial = authoriser is not simply the named address; distinct by Debug hash"
     }
     fn fixed_is_exhaustive(&self) -> Option<&'static str> {
         Some("entry-point x authoriser matrix (17 x 10) x {with,without} counterparty allowance enumerated completely; amounts sampled")
@@ -356,6 +368,7 @@ impl Property for C07 {
                 named_is_token_owner,
                 // half of the "no usable allowance" worlds are "approved, but expired"
                 grantor_allowance_expired: without_grantor_allowance && amount % 2 == 0,
+                windows_open: amount % 5 == 0,
             })
             .boxed()
     }
@@ -364,17 +377,20 @@ impl Property for C07 {
         for ep in EPS {
             for p in PRINCIPALS {
                 for al in [false, true] {
-                    v.push(Case { ep, principal: p, with_allowance_for_counterparty: al, amount: 3, without_grantor_allowance: false, named_is_token_owner: false, grantor_allowance_expired: false });
+                    v.push(Case { ep, principal: p, with_allowance_for_counterparty: al, amount: 3, without_grantor_allowance: false, named_is_token_owner: false, grantor_allowance_expired: false , windows_open: false });
+                }
+                if matches!(p, Principal::Nobody | Principal::Stranger | Principal::AllAddressesAliasCalledContract | Principal::ContractNamingOther) {
+                    v.push(Case { ep, principal: p, with_allowance_for_counterparty: false, amount: 3, without_grantor_allowance: false, named_is_token_owner: false, grantor_allowance_expired: false, windows_open: true });
                 }
                 // the named address is the token owner / a minter
-                v.push(Case { ep, principal: p, with_allowance_for_counterparty: false, amount: 3, without_grantor_allowance: false, named_is_token_owner: true, grantor_allowance_expired: false });
+                v.push(Case { ep, principal: p, with_allowance_for_counterparty: false, amount: 3, without_grantor_allowance: false, named_is_token_owner: true, grantor_allowance_expired: false , windows_open: false });
                 if matches!(ep, Ep::TokTransferFrom | Ep::TokBurnFrom) {
                     // no allowance from the grantor: nobody's authorisation is enough
                     for owner in [false, true] {
                         for expired in [false, true] {
                             // amount 500 = the whole (expired) allowance; 3 = part of it
                             for amount in [3u8, 250] {
-                                v.push(Case { ep, principal: p, with_allowance_for_counterparty: false, amount, without_grantor_allowance: true, named_is_token_owner: owner, grantor_allowance_expired: expired });
+                                v.push(Case { ep, principal: p, with_allowance_for_counterparty: false, amount, without_grantor_allowance: true, named_is_token_owner: owner, grantor_allowance_expired: expired , windows_open: false });
                             }
                         }
                     }
